@@ -24,7 +24,7 @@ LEVEL_NOTE = ('Trusts the model (zv/spec.py), zodbpickle, persistent.TimeStamp. 
 ASSUMPTIONS = ['model written from ZODB/interfaces.py', 'history size / data_txn not compared', 'single process, single thread']
 REQUIRED_COUNTERS = ('battery_queries', 'reopens', 'tid_monotonic_checks')
 
-FILE_OPS = ['store'] * 4 + ['multi'] * 2 + ['undo'] * 3 + ['undo2', 'delete', 'restore', 'restore', 'reopen', 'reopen', 'empty', 'abort']
+FILE_OPS = ['store'] * 4 + ['multi'] * 2 + ['undo'] * 3 + ['undo2', 'delete', 'restore', 'restore', 'reopen', 'reopen', 'empty', 'abort', 'resolved']
 MAP_OPS = ['store'] * 4 + ['multi'] * 2 + ['empty', 'abort']
 
 
@@ -59,7 +59,9 @@ def run_case(sh, s, d, case):
     clk = clock.install(clock.FakeClock(mode=mode, rnd=random.Random(s + 1)))
     st = make_storage(kind, d, FSM)
     mkind = 'file' if kind in ('file', 'demo-file') else 'mapping'
-    dr = Driver(st, rnd, kind=mkind)
+    from zv.driver import model_resolver
+    dr = Driver(st, rnd, kind=mkind, resolver=model_resolver)
+    dr.mix_classes = kind == 'file' and rnd.random() < 0.4
     if kind == 'mapping' or kind == 'demo':
         dr.oids = dr.oids[:5]
     ops = FILE_OPS if kind == 'file' else (MAP_OPS + ['undo', 'undo'] if kind == 'demo-file' else MAP_OPS)
